@@ -330,13 +330,22 @@ func (s *sysB) apply() {
 	s.lim.Sync(spec(sch...))
 }
 
-func specB() xstate.Spec {
+func specB() xstate.Spec { return specBMode("") }
+
+// specBMode: mode "remote" = the gateway runs with the remote rate limiter selected but no limiter server to talk to
+// (no client set): every schema falls back to its local limiter through Load()'s other branch - the local limit binds
+// there exactly as in local mode
+func specBMode(mode string) xstate.Spec {
 	kinds := []string{"mif1", "mif2", "mif0", "tb", "exempt", "absent"}
+	name := "reconfiguration-histories"
+	if mode != "" {
+		name += "-" + mode + "-fallback"
+	}
 	return xstate.Spec{
-		Name: "reconfiguration-histories",
+		Name: name,
 		New: func() interface{} {
 			ctx, cancel := context.WithCancel(context.Background())
-			s := &sysB{lim: flowcontrols.NewUpstreamLimiter(ctx, "c1", "", nil), lim2: flowcontrols.NewUpstreamLimiter(ctx, "c2", "", nil), cancel: cancel, cur: "mif1", epoch: 1}
+			s := &sysB{lim: flowcontrols.NewUpstreamLimiter(ctx, "c1", mode, nil), lim2: flowcontrols.NewUpstreamLimiter(ctx, "c2", mode, nil), cancel: cancel, cur: "mif1", epoch: 1}
 			s.apply()
 			s.lim2.Sync(spec(mif("s", 1)))
 			return s
@@ -526,7 +535,7 @@ func main() {
 		for _, sc := range all {
 			hs = append(hs, harnessA(c, sc, 0, 1))
 		}
-		xstate.ReplayIfAsked(c, []xstate.Spec{specB()})
+		xstate.ReplayIfAsked(c, []xstate.Spec{specB(), specBMode("remote")})
 		xa.ReplayIfAsked(c, hs)
 	}
 	var tasks []ev.Task
@@ -547,6 +556,7 @@ func main() {
 		}
 	}
 	tasks = append(tasks, xstate.Tasks(c, specB(), c.Pick(7, 9), 9)...)
+	tasks = append(tasks, xstate.Tasks(c, specBMode("remote"), c.Pick(6, 8), 9)...)
 	// "however it ends": every way a proxied request can end, over the real handler chain (free-running, not scheduled)
 	tasks = append(tasks, ev.Task{Name: "exit-paths", Run: func() { exitpaths.Run(c) }})
 	c.RunTasks(tasks)
